@@ -421,6 +421,22 @@ def PArcs.cut (c : Nat) (lvl : Nat) : PArcs → PArcs
   | .cons p o v annot rest => .cons (p.cut c lvl) (o.cut c lvl) v (annot.cut c lvl) (rest.cut c lvl)
 end
 
+/-! every anonymous blank node of a tree, by its arcs: the candidates for being described in a tree
+of their own by the repaired prettifier (`self.deferred`) -/
+mutual
+def PT.anons : PT → List PArcs
+  | .atom => []
+  | .quoted s p o => s.anons ++ (p.anons ++ o.anons)
+  | .coll items => items.anons
+  | .anon arcs => arcs :: arcs.anons
+def PTs.anons : PTs → List PArcs
+  | .nil => []
+  | .cons t ts => t.anons ++ ts.anons
+def PArcs.anons : PArcs → List PArcs
+  | .nil => []
+  | .cons p o _ annot rest => p.anons ++ (o.anons ++ (annot.anons ++ rest.anons))
+end
+
 def PTs.ofList : List PT → PTs
   | [] => .nil
   | t :: ts => .cons t (PTs.ofList ts)
